@@ -1,4 +1,4 @@
-import GixModel.Lemmas.C45
+import GixModel.Lemmas.C45NoPanic
 /-
 C45 — Text merges obey merge identities and never panic.  PROPERTY THEOREMS ONLY.
 
@@ -119,8 +119,8 @@ theorem forced_resolution_literal_false :
         [] [(⟨1, 2⟩, ⟨1, 2⟩)] = .ok (.complete, ps) ∧ Piece.token .other 1 [88, 10] ∈ ps := by
   exact ⟨[.token .ancestor 0 [97, 10], .token .other 1 [88, 10]], by decide +kernel, by simp⟩
 
-/-- `no_panic`, the part that is proved: for ALL token lists and ALL hunk lists satisfying the diff
-contract, `ResolveWithOurs` and `ResolveWithTheirs` never panic … -/
+/-- `no_panic` for `ResolveWithOurs` and `ResolveWithTheirs` (a corollary of `no_panic` below; kept
+from the first round) -/
 theorem no_panic_forced_partial (base ours theirs : List Bytes) (labels : Labels) (pickOurs : Bool)
     (ha hb : List (Range × Range)) (hA : DiffOf base ours ha) (hB : DiffOf base theirs hb) :
     ∃ r, merge ⟨base, ours, theirs⟩ labels (if pickOurs then .ours else .theirs) ha hb = .ok r :=
@@ -136,10 +136,27 @@ theorem no_panic_one_side_partial (base side : List Bytes) (labels : Labels) (co
   obtain ⟨qs, h2, _⟩ := merge_current_only base side labels conflict hs h
   exact ⟨⟨_, h1⟩, ⟨_, h2⟩⟩
 
-/-- The full `no_panic` statement (every mode, incl. the zealous contraction of `Merge`,
-`ZealousDiff3` and `ResolveWithUnion`): stated, checked by the harness on the real code, not proved. -/
+/-- The full `no_panic` statement: every mode, incl. the zealous contraction of `Merge`,
+`ZealousDiff3` and `ResolveWithUnion`, every marker size, every label. -/
 def C45_no_panic_full : Prop :=
   ∀ (base ours theirs : List Bytes) (labels : Labels) (conflict : Conflict) (ha hb : List (Range × Range)),
     DiffOf base ours ha → DiffOf base theirs hb → ∃ r, merge ⟨base, ours, theirs⟩ labels conflict ha hb = .ok r
+
+/-- `no_panic`: for ALL token lists, ALL hunk lists satisfying the diff contract, and ALL conflict
+styles × marker sizes × resolution modes × labels, the merge reaches no panic outcome: no slice or
+index out of bounds (`write_hunks`, `zealously_contract_hunks` and its truncation helpers,
+`fill_ancestor`), no failed `expect`/`assert!`/`unreachable!`, no `usize` underflow. -/
+theorem no_panic (base ours theirs : List Bytes) (labels : Labels) (conflict : Conflict)
+    (ha hb : List (Range × Range)) (hA : DiffOf base ours ha) (hB : DiffOf base theirs hb) :
+    ∃ r, merge ⟨base, ours, theirs⟩ labels conflict ha hb = .ok r :=
+  merge_ok base ours theirs labels conflict ha hb hA hB
+
+theorem no_panic_full : C45_no_panic_full := no_panic
+
+-- non-vacuity: a genuinely conflicting pair of diffs satisfying the contract (base "a\nb\n",
+-- ours "a\nX\n", theirs "a\nY\nb\n")
+example : DiffOf [[97, 10], [98, 10]] [[97, 10], [88, 10]] [(⟨1, 2⟩, ⟨1, 2⟩)] ∧
+    DiffOf [[97, 10], [98, 10]] [[97, 10], [89, 10], [98, 10]] [(⟨1, 1⟩, ⟨1, 2⟩)] :=
+  ⟨⟨by decide, fun h => absurd h (by decide)⟩, ⟨by decide, fun h => absurd h (by decide)⟩⟩
 
 end GixModel.Props.C45
